@@ -200,6 +200,17 @@ def suggest_alternative(value, valid_values, option_name, componentName, default
         ))
 
 
+def unique_paths_keep_order(paths: Optional[List[str]]) -> List[str]:
+    """Removes repeated paths without changing the order in which the remaining ones are layered
+
+    User variable files are layered starting from the first and working towards the last. When a path is given
+    more than once only its last occurrence can influence the result, so that is the one to keep.
+    (A set() would order the paths by their hash, i.e. differently in every process.)
+    """
+    paths = list(paths or [])
+    return [path for idx, path in enumerate(paths) if path not in paths[idx + 1:]]
+
+
 class FlowIRExperimentConfiguration:
     # VV: Making this a Class object enables us to load multiple packages and keep the record of the reported warnings
     _suppressed_warnings = set()
@@ -304,7 +315,7 @@ class FlowIRExperimentConfiguration:
 
         system_vars = system_vars or {}
         config_patches = config_patches or {}
-        variable_files = list(set(variable_files or []))
+        variable_files = unique_paths_keep_order(variable_files)
 
         out_errors = []
         self.file_format = file_format
@@ -505,7 +516,7 @@ class FlowIRExperimentConfiguration:
 
         systemvars = systemvars or {}
         config_patches = config_patches or {}
-        variable_files = list(set(variable_files or []))
+        variable_files = unique_paths_keep_order(variable_files)
 
         out_errors = []
 
